@@ -20,8 +20,6 @@ theorem paintRun8_spec (g : G8) (y : Nat) (v : UInt8) (A B : Bytes)
     unfold paintRun8
     have h1 : ¬ (p.length ≥ g.w) := by omega
     simp only [h1, if_false]
-    have hnext : buf8 g A B (p ++ [v] ++ List.replicate n v) = buf8 g A B (p ++ List.replicate (n + 1) v) := by
-      simp [List.replicate_succ]
     by_cases hx : p.length < g.wImg
     · simp only [hx, if_true]
       have e : y * g.stride + p.length + g.padW = A.length + p.length + g.padW := by omega
@@ -73,5 +71,146 @@ theorem paintLit8_spec (g : G8) (y : Nat) (A B : Bytes)
       simp only [List.length_append, List.length_singleton] at this
       simp only [this]
       simp [Nat.add_assoc, Nat.add_comm 1]
+
+/-- after an operation: the row is complete (next row or stop) or not -/
+def next8 (g : G8) (rest data : Bytes) (x y : Nat) : R Bytes :=
+  if x ≥ g.w then (if y = 0 then .ok data else loop8 g rest data 0 (y - 1)) else loop8 g rest data x y
+
+theorem loop8_run (g : G8) (n : Nat) (v : UInt8) (rest data : Bytes) (x y : Nat) (h2 : 2 ≤ n) (h128 : n ≤ 128) :
+    loop8 g ((Op.run n v).bytes ++ rest) data x y =
+      match paintRun8 g y v n data x with
+      | .error e => .error e
+      | .ok (data, x) => next8 g rest data x y := by
+  have e1 : (UInt8.ofNat (257 - n)).toNat = 257 - n := by
+    simp only [UInt8.toNat_ofNat']; omega
+  simp only [Op.bytes, List.cons_append, List.nil_append]
+  rw [loop8]
+  have e2 : (257 - n ≥ 128) := by omega
+  have e3 : 257 - (257 - n) = n := by omega
+  simp only [e1, e2, e3, if_true, next8]
+  cases paintRun8 g y v n data x <;> rfl
+
+theorem loop8_lit (g : G8) (bs : Bytes) (rest data : Bytes) (x y : Nat) (h1 : 1 ≤ bs.length) (h128 : bs.length ≤ 128) :
+    loop8 g ((Op.lit bs).bytes ++ rest) data x y =
+      match paintLit8 g y bs.length (bs ++ rest) data x with
+      | .error e => .error e
+      | .ok (data, x, r2) => next8 g r2 data x y := by
+  have e1 : (UInt8.ofNat (bs.length - 1)).toNat = bs.length - 1 := by
+    simp only [UInt8.toNat_ofNat']; omega
+  simp only [Op.bytes, List.cons_append]
+  rw [loop8.eq_def]
+  have e2 : ¬ (bs.length - 1 ≥ 128) := by omega
+  have e3 : bs.length - 1 + 1 = bs.length := by omega
+  have e4 : ¬ (bs.length > (bs ++ rest).length) := by simp
+  simp only [e1, e2, e3, e4, if_false, next8]
+  split <;> rename_i heq <;> rw [e1, e3] at heq <;> simp only [heq]
+
+theorem expand_length_pos (o : Op) (h : o.valid = true) : 1 ≤ o.expand.length := by
+  cases o with
+  | lit bs => simp [Op.valid] at h; simp [Op.expand]; omega
+  | run n v => simp [Op.valid] at h; simp [Op.expand]; omega
+
+/-- one operation of a scan line -/
+theorem loop8_op (g : G8) (y : Nat) (A B : Bytes) (hA : A.length = y * g.stride) (hw : g.padW + g.wImg ≤ g.stride)
+    (o : Op) (hv : o.valid = true) (p rest : Bytes) (hp : p.length + o.expand.length ≤ g.w) :
+    loop8 g (o.bytes ++ rest) (buf8 g A B p) p.length y
+      = next8 g rest (buf8 g A B (p ++ o.expand)) (p.length + o.expand.length) y := by
+  cases o with
+  | lit bs =>
+    simp only [Op.valid, Bool.and_eq_true, decide_eq_true_eq] at hv
+    rw [loop8_lit g bs rest _ _ _ hv.1 hv.2]
+    simp only [Op.expand] at hp ⊢
+    rw [paintLit8_spec g y A B hA hw bs p rest hp]
+  | run n v =>
+    simp only [Op.valid, Bool.and_eq_true, decide_eq_true_eq] at hv
+    rw [loop8_run g n v rest _ _ _ hv.1 hv.2]
+    simp only [Op.expand, List.length_replicate] at hp ⊢
+    rw [paintRun8_spec g y v A B hA hw n p hp]
+
+/-- the operations of one scan line (they expand to exactly the `g.w` bytes of the line) -/
+theorem loop8_ops (g : G8) (y : Nat) (A B : Bytes) (hA : A.length = y * g.stride) (hw : g.padW + g.wImg ≤ g.stride) (rest : Bytes) :
+    ∀ (ops : List Op) (p : Bytes), (∀ o ∈ ops, o.valid = true) → ops ≠ [] → p.length + (unpack ops).length = g.w →
+      loop8 g (packed ops ++ rest) (buf8 g A B p) p.length y =
+        (if y = 0 then .ok (buf8 g A B (p ++ unpack ops)) else loop8 g rest (buf8 g A B (p ++ unpack ops)) 0 (y - 1)) := by
+  intro ops
+  induction ops with
+  | nil => intro p _ h; exact absurd rfl h
+  | cons o os ih =>
+    intro p hv _ hlen
+    have hvo := hv o (by simp)
+    have hvos : ∀ o' ∈ os, o'.valid = true := fun o' h => hv o' (by simp [h])
+    simp only [unpack, packed, List.flatMap_cons, List.length_append, List.append_assoc] at hlen ⊢
+    rw [loop8_op g y A B hA hw o hvo p _ (by omega)]
+    have hpos := expand_length_pos o hvo
+    cases os with
+    | nil =>
+      simp only [List.flatMap_nil, List.length_nil, Nat.add_zero, List.nil_append, List.append_nil] at hlen ⊢
+      unfold next8
+      have : p.length + o.expand.length ≥ g.w := by omega
+      simp only [this, if_true]
+    | cons o2 os2 =>
+      have hpos2 := expand_length_pos o2 (hvos o2 (by simp))
+      have hlt : ¬ (p.length + o.expand.length ≥ g.w) := by
+        simp only [List.flatMap_cons, List.length_append] at hlen; omega
+      unfold next8
+      simp only [hlt, if_false]
+      have := ih (p ++ o.expand) hvos (by simp) (by simp only [unpack, List.length_append]; omega)
+      simp only [List.length_append, unpack, packed] at this
+      rw [this]
+      simp [List.append_assoc]
+
+theorem unpack_nil_of_valid (ops : List Op) (hv : ∀ o ∈ ops, o.valid = true) (h : (unpack ops).length = 0) : ops = [] := by
+  cases ops with
+  | nil => rfl
+  | cons o os =>
+    have := expand_length_pos o (hv o (by simp))
+    simp only [unpack, List.flatMap_cons, List.length_append] at h
+    omega
+
+/-- all scan lines: `y + 1` lines, top line first, painted from file row `y` down to file row 0 -/
+theorem loop8_rows (g : G8) (hw : g.padW + g.wImg ≤ g.stride) (hpos : 0 < g.w) (rest : Bytes) :
+    ∀ (opsRows : List (List Op)) (rows : List Bytes) (y : Nat) (B : Bytes),
+      validRows opsRows rows = true → rows.length = y + 1 → (∀ r ∈ rows, r.length = g.w) →
+      loop8 g (packed opsRows.flatten ++ rest) (zeros ((y + 1) * g.stride) ++ B) 0 y
+        = .ok ((rows.reverse.map fun r => rowImg g.stride g.padW g.wImg r).flatten ++ B) := by
+  intro opsRows
+  induction opsRows with
+  | nil =>
+    intro rows y B hv hl _
+    cases rows with
+    | nil => simp at hl
+    | cons r rs => simp [validRows] at hv
+  | cons ops os ih =>
+    intro rows y B hv hl hlen
+    cases rows with
+    | nil => simp [validRows] at hv
+    | cons r rs =>
+      simp only [validRows, Bool.and_eq_true, List.all_eq_true, beq_iff_eq] at hv
+      obtain ⟨⟨hvo, hun⟩, hvr⟩ := hv
+      have hr : r.length = g.w := hlen r (by simp)
+      have hne : ops ≠ [] := by
+        intro h; subst h; simp [unpack] at hun; subst hun; simp at hr; omega
+      have hz : zeros ((y + 1) * g.stride) = zeros (y * g.stride) ++ rowImg g.stride g.padW g.wImg [] := by
+        rw [rowImg_nil _ _ _ (by omega), ← zeros_add]; congr 1; rw [Nat.add_mul]; simp
+      have hstep := loop8_ops g y (zeros (y * g.stride)) B (by simp) hw (packed os.flatten ++ rest) ops []
+        hvo hne (by simp [hun, hr])
+      simp only [buf8, List.nil_append, List.length_nil] at hstep
+      simp only [List.flatten_cons, packed, List.flatMap_append, List.append_assoc] at hstep ⊢
+      rw [hz]
+      simp only [List.append_assoc]
+      rw [hstep, hun]
+      by_cases hy : y = 0
+      · subst hy
+        have : rs = [] := by
+          simp at hl; exact hl
+        subst this
+        simp [zeros_zero]
+      · simp only [hy, if_false]
+        obtain ⟨y', rfl⟩ : ∃ y', y = y' + 1 := ⟨y - 1, by omega⟩
+        have hl' : rs.length = y' + 1 := by simp at hl; omega
+        have := ih rs y' (rowImg g.stride g.padW g.wImg r ++ B) hvr hl' (fun r' h => hlen r' (by simp [h]))
+        simp only [packed, Nat.add_sub_cancel, List.append_assoc] at this ⊢
+        rw [this]
+        simp [List.append_assoc]
 
 end Drx.Bitd
